@@ -82,6 +82,28 @@ def families(rng):
             yield "shared-renamed", ("bin", binop, (), t, ("sub", t, ((B, V(C)),)))
             yield "shared-reduced", ("red", red, ("bin", binop, (), t, ("sub", t, ((B, V(C)),))), D(B))
             yield "shared-sum", ("bin", red, (), t, t) if red != "logaddexp" else ("bin", "logaddexp", (), t, t)
+        # a shared lazy reduction inside a product distributed over a sum, in every operand order
+        for red, binop in (("add", "mul"), ("logaddexp", "add")):
+            r = ("red", red, ("bin", binop, (), T(rng, (A, B)), X), D(A))
+            z = T(rng, (C,))
+            yield "shared-distribute", ("bin", binop, (), r, ("bin", red, (), r, z))
+            yield "shared-distribute", ("bin", binop, (), ("bin", red, (), r, z), r)
+            yield "shared-distribute", ("bin", binop, (), ("bin", red, (), z, r), r)
+            yield "shared-distribute", ("bin", red, (), r, ("bin", binop, (), r, z))
+            # the same with the factor that mentions the free variable before / after the tensor
+            r2 = ("red", red, ("bin", binop, (), X, T(rng, (A, B))), D(A))
+            yield "shared-distribute", ("bin", binop, (), r2, ("bin", red, (), r2, z))
+        # a real-valued lazy term substituted into itself: both copies carry the same mangled binder
+        for inner_first in (True, False):
+            prod = ("bin", "mul", (), T(rng, (A, B)), ("var", "zr", ("real", ()))) if inner_first else ("bin", "mul", (), ("var", "zr", ("real", ())), T(rng, (A, B)))
+            t = ("red", "add", ("un", "tanh", (), prod), D(A))
+            yield "self-subst-real", ("sub", t, (("zr", t),))
+            yield "self-subst-real", ("sub", t, (("zr", ("bin", "add", (), t, X)),))
+        # Independent whose fresh name coincides with one of its bound names
+        fnx = ("bin", "add", (), ("bin", "mul", (), T(rng, (A, B)), ("var", "d", ("real", ()))), T(rng, (C,)))
+        yield "indep-same-names", ("indep", fnx, "d", A, "d")
+        yield "indep-same-names", ("sub", ("indep", fnx, "d", A, "d"), (("d", ("ten", np.array([0.5, -1.0]), (), "real")),))
+        yield "indep-same-names", ("bin", "add", (), ("indep", fnx, "d", A, "d"), T(rng, (B,)))
         ti = ("sub", TI(rng, (A,)), ((A, ("stack", B, (V(C), ("num", 1, 2))) if B != C else V(C)),))
         yield "self-subst", ("sub", ti, tuple((n, ti) for n in sorted(set(typecheck_inputs(ti)))[:1]))
         tj = ("bin", "getitem", (("offset", 0),), ("ten", rng.integers(0, 2, size=(2, 2)).astype(np.int64), (A,), 2), V(B))
